@@ -109,6 +109,17 @@ CHECKS["C17"]["text"] += " Executor-message framing (Syn/Ack/payload frames) is 
 CHECKS["C17"]["text"] += " has-wire-tag: every message class of the module (found in the AST: defines or inherits ser and deser, has no subclass) must carry exactly one tag in b2c - a class the tables do not know cannot be sent."
 CHECKS["C11"]["text"] += " xform-symnames: the names themselves are solver variables (CrossHair symbolic strings): the expanded node's name and the template leaf's name (length 1..2 quick, 1..3 thorough, alphabet {a, .}), two node names under rename_nodes, an output name of length 1..4 over the letters of 'name' read by a consumer through copy / rename / no-op expand / never-fuse / dedup / one-colour split, and producer+output names across a cut edge; one explored path stands for every name that drives the string handling (prefixing, prefix removal, attribute lookup by output name) down the same branches, and the decision tree is exhausted."
 CHECKS["C11"]["note"] = CHECKS["C11"]["note"].replace("Names, outputs and payloads are palette picks (sets of Node objects iterate in id() order, so symbolic strings would make paths non-deterministic): the solver chooses the configuration.", "In the generated-DAG harnesses names, outputs and payloads are palette picks (sets of Node objects iterate in id() order, so symbolic strings on arbitrary DAGs made paths non-deterministic); in xform-symnames they are symbolic strings on fixed 3-4 node shapes.")
+FULLSTACK = " fullstack-{pid}: the same controller loop against the real Bridge, one real Executor.recv_loop per host, the real worker receive loop (lifted from entrypoint()) with the real execute_sequence / runner.run / Memory per worker and one real DataServer per host, joined by the in-process zmq stand-in (loss-free FIFO per address); which component steps next is a solver-decided pick for the first K steps (jobs of 1..3 tasks on 1..2 hosts quick, more shapes thorough). Nothing of the cluster is modelled in these runs: {what}"
+CHECKS["C01"]["text"] += FULLSTACK.format(pid="C01", what="the delivered outputs equal the sequential terms and the run does not fail.")
+CHECKS["C02"]["text"] += FULLSTACK.format(pid="C02", what="no worker ever reads a dataset that is not on its host and every task starts exactly once.") + " notify-step: notify() on <=4 (thorough 6) publication / transfer-completion notices for the inputs of a fan-in task, any order, multiplicity and batching: the task becomes computable exactly when each input has been announced at least once."
+CHECKS["C03"]["text"] += FULLSTACK.format(pid="C03", what="the run returns with every output present, every executor has terminated after the shutdown handshake, every worker received WorkerShutdown, the shm server was shut down once per host and the data server killed.") + " notify-step as in C02."
+CHECKS["C06"]["text"] += " retry-when-busy: one iteration of Executor.recv_loop / Bridge.recv_events with an in-flight record of symbolic age and an inbox holding nothing / a stale ack / a local publication / both: the record is retransmitted in that iteration iff it is overdue. Publications may carry a transfer index equal to an acknowledged-send index (tidx variants)."
+CHECKS["C08"]["text"] += " Operation freespace: from any I-state a FreeSpaceRequest goes through the real LocalServer.start dispatch and the reported figure must equal capacity minus the resident total (sizes symbolic)."
+CHECKS["C09"]["text"] += " Reader tables of the pre-state use the ids the store itself hands to the 1st/2nd/3rd concurrent reader (three real gets on a scratch dataset); a granted get must add exactly one reader. Left-over spill files of any (symbolic) size, equal sizes included."
+CHECKS["C15"]["text"] += " take also with negative, consecutive and repeated positions; xarray concat of labelled inputs keeps the inputs' order. Family dtype: mixed-dtype witnesses (int64/float64, int8/int64, float32/float64, bool/int64) executed concretely against NumPy on the promoted arrays - this sub-clause is sampled, not decided by the solver."
+CHECKS["C17"]["text"] += " In-domain literals (2^32-1, 2^32, 2^40+5, 2^63; empty and long ASCII keys) through the real encoder/decoder. instance-file: a job instance through the real writers router._spawn_local/_spawn_slurm and the real reader benchmarks.get_job over an in-memory open(). Frame kind zraw: a payload that is itself a complete zlib stream."
+CHECKS["C14"]["text"] += " One action holding the same computation twice (two node objects) must come out of Cascade.from_actions with one node per computation."
+CHECKS["C13"]["text"] += " Programs added in session 3: broadcast against an action whose additional dimension comes first (broadcast-lead), concatenate over labelled xarray inner arrays (concatenate-xr)."
 CHECKS["C17"]["technique"] += "; framing: solver-driven enumeration of frame lists through the real Listener._recv_one"
 
 CHECKS.update({
@@ -123,6 +134,8 @@ CHECKS.update({
 })
 
 NA_REASON = "check not built yet in this round (planned, see DESIGN.md §4); not claimed until its harness exists and passes on the unchanged tree"
+
+CHECKS["C05"]["text"] += " Exit code 0 is an exit: while the executor runs, a child that has exited - whatever the code, e.g. after sys.exit(0) in a task body - must make healthcheck raise; during terminate a clean exit must not."
 
 def main():
     checks = []
